@@ -110,13 +110,14 @@ PROPS = {
         "assumptions": [],
     },
     "C19": {
-        "lean": ["GldapModel.Props.C19"],
-        "audit": "GldapModel/Audit/C19.lean",
+        "lean": ["GldapModel.Props.C19", "GldapModel.Props.BindSession"],
+        "audit": ["GldapModel/Audit/C19.lean", "GldapModel/Audit/BindSession.lean"],
         "inventory": ["td.Directory.handleBind", "Entry.GetAttributeValues", "Request.GetSimpleBindMessage", "Request.NewBindResponse",
-                      "td.Directory.SetAllowAnonymousBind", "td.Directory.SetUsers", "td.Start", "td.WithDefaults", "td.getOpts", "td.applyOpts", "td.defaults",
+                      "td.Directory.SetAllowAnonymousBind", "td.Directory.SetUsers", "td.Directory.SetControls", "BindResponse.SetControls", "td.Start", "td.WithDefaults", "td.getOpts", "td.applyOpts", "td.defaults",
                       "newMessage", "newRequest"],
         "streams": [
             {"stream": "tdbind", "n_quick": 20000, "n_thorough": 1500000},
+            {"stream": "tdbindwire", "n_quick": 10000, "n_thorough": 800000},
             {"stream": "tdlive", "n_quick": 300, "n_thorough": 6000, "timeout_quick": 900, "timeout_thorough": 6000},
         ],
         "trusted": BER_TRUST,
